@@ -113,7 +113,7 @@ def run(prog, R):
     # ---- ALLOC-2
     cont = re.compile(r'std::vec::Vec<|fasta::BufferPosition$|::RecordSet$')
     checked = 0
-    for p in sorted(reach | set(s.path for s in seekers)):
+    for p in sorted(reach | prog.reachable_from(seekers)):
         b = prog.bodies[p]
         if is_derive(b):
             continue
@@ -122,6 +122,13 @@ def run(prog, R):
                 continue
             for s in blk.stmts:
                 if s.k != 'assign' or not s.place.proj:
+                    continue
+                # `*self = ...` through a &mut to a container object
+                if [q['k'] for q in s.place.proj] == ['deref'] and s.place.local <= b.arg_count and s.place.local >= 1:
+                    pty = b.local_tys[s.place.local]
+                    if pty.startswith('&mut') and cont.search(pty.replace('&mut ', '').strip()):
+                        R.add('ALLOC-2', b, 'assign:*%s' % b.names.get(s.place.local, '_%d' % s.place.local), False, site(b, s.line),
+                              'the container object behind %s is replaced as a whole: its allocations are dropped and must be re-made' % pty)
                     continue
                 last = [q for q in s.place.proj if q['k'] == 'field']
                 if not last:
